@@ -90,6 +90,24 @@ Proof. exact number_sound. Qed.
 Print Assumptions C02_string_literals_exact.
 Print Assumptions C02_number_tokens_only.
 
+(* RFC 8259 alone (rfc_text, JsonGrammar.v: the grammar with every relaxation removed; the text of each string UTF-8) is
+   part of the documented language, so every RFC 8259 document is accepted and yields the value it denotes *)
+Theorem C02_rfc8259_is_part_of_the_documented_language : forall t v, rfc_text t v -> jtext t v.
+Proof. exact rfc_text_jtext. Qed.
+Theorem C02_every_rfc8259_document_is_accepted_with_its_meaning : forall t v, rfc_text t v -> parse_value t = Ok v.
+Proof. exact rfc_complete. Qed.
+Print Assumptions C02_every_rfc8259_document_is_accepted_with_its_meaning.
+(* [1, "a"] *)
+Example C02_example_rfc_document : rfc_text [91; 49; 44; 32; 34; 97; 34; 93] (VArr [VNum (NUInt 1); VStr [97]]).
+Proof.
+  apply (RElem [] [91; 49; 44; 32; 34; 97; 34; 93] _ []); [constructor| |constructor].
+  apply (RV_array [49; 44; 32; 34; 97; 34]). apply (REs_cons [49] _ [32; 34; 97; 34]).
+  - apply (RElem [] [49] _ []); [constructor| |constructor]. apply RV_number.
+    apply (Number false [49] [] [] [] 0); [apply Int_nonzero; [reflexivity|discriminate|constructor]|constructor|constructor].
+  - apply REs_one. apply (RElem [32] [34; 97; 34] _ []); [apply RWS_char; [tauto|constructor]| |constructor].
+    apply RV_string. apply (RStr [97] [97]); [apply RB_raw; [discriminate|discriminate|discriminate|constructor]|reflexivity].
+Qed.
+
 (* RFC 8259 requires the text to be UTF-8, the grammar requires the denoted string to be UTF-8: for the bytes between
    the quotes of any string literal of the grammar the two conditions coincide (escapes are ASCII in the text and whole
    UTF-8 sequences in the meaning), so the grammar does not reject any RFC 8259 string and accepts no ill-formed text *)
